@@ -35,6 +35,7 @@ type SiteAct struct {
 type Step struct {
 	Kind    string    `json:"kind"` // "block" | "restart" | "checks"
 	Txs     []string  `json:"txs,omitempty"`
+	Labels  []string  `json:"labels,omitempty"` // generator intent label per tx (parallel to Txs)
 	DtMs    int64     `json:"dt_ms,omitempty"`
 	Absent  []string  `json:"absent,omitempty"`
 	Replica int       `json:"replica,omitempty"`
